@@ -205,6 +205,64 @@ func checkC18(p *core.Program, r *core.Report) {
 			r.Fail(R4, "detached notifications share one delay", "", "per-change goroutines of different sites wait different constant delays: notifications of one SKI are reordered")
 		}
 	}
+	// ---- R5: no silent change of the stored detail
+	const R5 = "C18.R5 every-change-notified"
+	r.Rule(R5, "in package hub every modification of a stored pairing detail (SetState / SetError on it, SetConnectionStateDetail) is followed on every path by a ServicePairingDetailUpdate (directly or from the goroutine spawned for it): a change that is not announced leaves the application's last notification different from what PairingDetailForSki reports")
+	{
+		must := core.NewMust(p, 2, func(in ssa.Instruction) bool { return core.IsInvokeOf(in, mUpd) })
+		must.FollowGo = true
+		nmod := 0
+		for _, fn := range fns {
+			fn := fn
+			core.EachInstr(fn, func(in ssa.Instruction) {
+				c := core.Common(in)
+				if c == nil {
+					return
+				}
+				isMod := core.CallsMethodNamed(in, apiPath, "ConnectionStateDetail", "SetState") ||
+					core.CallsMethodNamed(in, apiPath, "ConnectionStateDetail", "SetError") ||
+					core.CallsMethodNamed(in, apiPath, "ServiceDetails", "SetConnectionStateDetail")
+				if !isMod {
+					return
+				}
+				// initialisation of a record that was created in this very function is not a change of a stored detail
+				fresh := false
+				var walk func(v ssa.Value, d int)
+				walk = func(v ssa.Value, d int) {
+					if d > 4 || v == nil {
+						return
+					}
+					if cc, ok := core.Canon(v).(*ssa.Call); ok {
+						if t := cc.Call.StaticCallee(); t != nil && t.Name() == "NewServiceDetails" {
+							fresh = true
+							return
+						}
+						if len(cc.Call.Args) > 0 {
+							walk(cc.Call.Args[0], d+1)
+						}
+					}
+				}
+				walk(c.Args[0], 0)
+				if fresh {
+					return
+				}
+				nmod++
+				key := fmt.Sprintf("change of the stored detail in %s (%s) is announced", p.FnName(goOrigin(p, fn)), c.StaticCallee().Name())
+				if bad := core.PathSearch(fn, in, core.IsReturn, must.Instr, nil); bad != nil {
+					r.Fail(R5, key, p.Pos(in.Pos()), "after this change of the stored pairing detail a path returns without notifying the application: PairingDetailForSki then reports a state the application was never told")
+				} else {
+					r.OK(R5, key, p.Pos(in.Pos()), "every path from the change reaches a notification")
+				}
+			})
+		}
+		if nmod < 3 {
+			r.Fail(R5, "modification sites", "", fmt.Sprintf("expected at least 3 sites that modify a stored pairing detail, found %d", nmod))
+		}
+	}
+	// ---- R6: a cancel that was announced as None really ends the pending handshake (shared with C10.R3 / C01.R5)
+	const R6 = "C18.R6 cancel-takes-effect"
+	r.Rule(R6, "the abort entry of the SHIP connection ends terminal from both waiting states: CancelPairingWithSKI announces None, so a connection that silently keeps waiting makes the hub report InProgress (and later Completed) after the application's last notification said None")
+	checkAbortEntry(p, r, R6)
 	// ---- R2
 	stored := func(v ssa.Value, site core.Site) (bool, string) {
 		v = resolveGoParam(p, v)
@@ -341,7 +399,6 @@ func checkC18(p *core.Program, r *core.Report) {
 	}
 	_ = types.Typ
 }
-
 
 // isHubValue: v is (a pointer to) the Hub itself or one of its fields - hub-wide, not per-SKI state.
 func isHubValue(p *core.Program, v ssa.Value) bool {
